@@ -48,7 +48,7 @@ import (
 
 var (
 	c11Srcs  = []string{"dataset", "latest", "union", "multi", "sample", "slow", "http"}
-	c11Trs   = []string{"none", "js", "jsthrow", "jspar4", "jspar4throw", "jsempty", "http"}
+	c11Trs   = []string{"none", "js", "jsthrow", "jspar4", "jspar4throw", "jsempty", "jsnocode", "http"}
 	c11Sinks = []string{"dataset", "devnull", "console", "http", "nodataset"}
 	c11Trigs = []string{"cron", "onchange"}
 	c11Types = []string{JobTypeIncremental, JobTypeFull}
@@ -203,6 +203,8 @@ func c11JobJSON(c c11Cfg, id string, k int, p string, sv *c11Servers) string {
 		tr = vjJSTransform(`function transform_entities(entities) { var out = []; for (var i = 0; i < entities.length; i++) { out.push(entities[i]); } return out; }`, 4)
 	case "jspar4throw": // every worker's chunk fails
 		tr = vjJSTransform(`function transform_entities(entities) { throw new Error("boom in a worker"); }`, 4)
+	case "jsnocode": // a javascript transform declared without code (the scheduler accepts it)
+		tr = map[string]any{"Type": "JavascriptTransform"}
 	case "jsempty": // the transform drops everything: the sink gets an empty batch
 		tr = vjJSTransform(`function transform_entities(entities) { return []; }`, 0)
 	case "jspar8work": // probes only: 8 workers that keep the javascript runtime busy
@@ -300,7 +302,9 @@ func c11RunConfig(h *vjHub, sv *c11Servers, idx int, c c11Cfg) c11Result {
 	quiet := func() (string, bool) { // wait until no run of this hub is active
 		deadline := time.Now().Add(c11Watchdog)
 		for {
-			h.Runner.raffle.runningMu.Lock()
+			if !c11LockRaf(h.Runner.raffle) {
+				return c11LockMsg, false
+			}
 			n := len(h.Runner.raffle.runningJobs)
 			h.Runner.raffle.runningMu.Unlock()
 			if n == 0 {
@@ -326,7 +330,9 @@ func c11RunConfig(h *vjHub, sv *c11Servers, idx int, c c11Cfg) c11Result {
 		if prev != nil && r.Start.Equal(prev.Start) && r.End.Equal(prev.End) {
 			return fmt.Sprintf("%s: no result stored for this run (the stored result is still the one of the previous run, started %v)", tag, r.Start)
 		}
-		h.Runner.raffle.runningMu.Lock()
+		if !c11LockRaf(h.Runner.raffle) {
+			return tag + ": " + c11LockMsg
+		}
 		ti, tf, n := h.Runner.raffle.ticketsIncr, h.Runner.raffle.ticketsFull, len(h.Runner.raffle.runningJobs)
 		var who []string
 		for rid := range h.Runner.raffle.runningJobs {
@@ -833,7 +839,12 @@ func (p *c11Probe) onLog(msg string) {
 		return
 	}
 	// sample the run table the way its owner does (under its mutex)
-	p.raf.runningMu.Lock()
+	if !c11LockRaf(p.raf) {
+		p.mu.Lock()
+		p.problems = append(p.problems, c11LockMsg)
+		p.mu.Unlock()
+		return
+	}
 	nIncr, nFull := 0, 0
 	for _, st := range p.raf.runningJobs {
 		if st.isFull {
@@ -885,10 +896,11 @@ function transform_entities(entities) {
 // the very end, after a long pause, so that no late timer of an earlier storm
 // can meet a closed store); the log hook dispatches to the current probe.
 type c11StormEnv struct {
-	h     *vjHub
-	mu    sync.Mutex
-	probe *c11Probe
-	seq   int
+	wedged string // set once the hub's run table can no longer be locked
+	h      *vjHub
+	mu     sync.Mutex
+	probe  *c11Probe
+	seq    int
 }
 
 func newC11StormEnv() *c11StormEnv {
@@ -911,6 +923,16 @@ func (env *c11StormEnv) close() {
 }
 
 func (env *c11StormEnv) run(c c11Storm) (problem string, inconclusive bool, extra map[string]int) {
+	if env.wedged != "" {
+		// the hub of this process is wedged for good by what an earlier case found: every further case
+		// (the shrinker's attempts included) ends the same way, without waiting for it again
+		return env.wedged, false, nil
+	}
+	defer func() {
+		if strings.Contains(problem, "mutex could not be taken") {
+			env.wedged = problem + " (found by an earlier case of this process; the hub stays wedged)"
+		}
+	}()
 	h := env.h
 	env.seq++
 	h.takeLogs()
@@ -1026,7 +1048,18 @@ func (env *c11StormEnv) run(c c11Storm) (problem string, inconclusive bool, extr
 			}
 		}()
 	}
-	wg.Wait()
+	reqDone := make(chan struct{})
+	go func() { wg.Wait(); close(reqDone) }()
+	select {
+	case <-reqDone:
+	case <-time.After(60 * time.Second):
+		// run requests, kills and status calls answer in microseconds (runs are started, not awaited)
+		if !c11LockRaf(h.Runner.raffle) {
+			return "requests of the storm got no answer within 60s; " + c11LockMsg, false, nil
+		}
+		h.Runner.raffle.runningMu.Unlock()
+		return "", true, nil
+	}
 	// quiescence: nothing running, no fullsync waiting for a ticket, and it stays so
 	deadline := time.Now().Add(10 * time.Second)
 	calm := 0
@@ -1039,7 +1072,9 @@ func (env *c11StormEnv) run(c c11Storm) (problem string, inconclusive bool, extr
 			// a released run slot"): every later trigger of that id is refused for good.
 			snap := func() (map[string]time.Time, int) {
 				m := map[string]time.Time{}
-				h.Runner.raffle.runningMu.Lock()
+				if !c11LockRaf(h.Runner.raffle) {
+					return nil, -2
+				}
 				for id, st := range h.Runner.raffle.runningJobs {
 					m[id] = st.started
 				}
@@ -1055,8 +1090,14 @@ func (env *c11StormEnv) run(c c11Storm) (problem string, inconclusive bool, extr
 				return m, n
 			}
 			before, callsBefore := snap()
+			if callsBefore == -2 {
+				return c11LockMsg, false, nil
+			}
 			time.Sleep(20 * time.Second)
 			after, callsAfter := snap()
+			if callsAfter == -2 {
+				return c11LockMsg, false, nil
+			}
 			if callsBefore >= 0 && callsBefore == callsAfter {
 				for id, st := range before {
 					if st2, still := after[id]; still && st2.Equal(st) {
@@ -1070,7 +1111,9 @@ func (env *c11StormEnv) run(c c11Storm) (problem string, inconclusive bool, extr
 			}
 			return "", true, nil
 		}
-		h.Runner.raffle.runningMu.Lock()
+		if !c11LockRaf(h.Runner.raffle) {
+			return c11LockMsg, false, nil
+		}
 		n := len(h.Runner.raffle.runningJobs)
 		h.Runner.raffle.runningMu.Unlock()
 		queued := 0
@@ -1084,7 +1127,9 @@ func (env *c11StormEnv) run(c c11Storm) (problem string, inconclusive bool, extr
 	}
 	// slot accounting (consistent under the table's own mutex, whatever a late
 	// retry of an earlier storm may be doing): free tickets + running = pool
-	h.Runner.raffle.runningMu.Lock()
+	if !c11LockRaf(h.Runner.raffle) {
+		return c11LockMsg, false, nil
+	}
 	tI, tF, nI, nF := h.Runner.raffle.ticketsIncr, h.Runner.raffle.ticketsFull, 0, 0
 	mine := 0
 	for id, st := range h.Runner.raffle.runningJobs {
@@ -1234,4 +1279,16 @@ func TestVerifProbe_F28(t *testing.T) {
 	if leaked {
 		t.Fatalf("F28 present: getRunningJobs hands out the live run table")
 	}
+}
+
+const c11LockMsg = "the run table's mutex could not be taken for 30s: it is held although every path holds it for microseconds only (an admission or release path returned without unlocking); every later run request, kill and status call hangs"
+
+// c11LockRaf takes the run table's mutex the way its owner does, but gives up after 30 s.
+func c11LockRaf(raf *raffle) bool {
+	for t0 := time.Now(); !raf.runningMu.TryLock(); time.Sleep(200 * time.Microsecond) {
+		if time.Since(t0) > 30*time.Second {
+			return false
+		}
+	}
+	return true
 }
